@@ -15,11 +15,9 @@ Two halves that must not be confused:
   `+12 sn`, `+16 una`, `+20 len`, next segment at `offset + 24 + len`) are used literally.
 -/
 import KcpVerif.Generated
-import KcpVerif.Model.Wrap
+import KcpVerif.Model.Bytes
 
 namespace KcpVerif
-
--- `Bytes` (= `List UInt8`) comes from Model/Wrap
 
 namespace Wire
 open KcpVerif.Gen
